@@ -9,7 +9,7 @@
    build both Ints from int64 values), and for ALL inputs every value the code returns is the model's. *)
 From Coq Require Import String.
 From Comdex Require Import Lib.Base Lib.DecArith Lib.GoSem Model.DutchV2 Gen.PureFuns
-  Proofs.PureFunsLemmas.
+  Proofs.PureFunsLemmas Proofs.PureFunsLemmas2.
 
 Theorem tie_auctionsV2_InitialPrice : forall twa premium,
   to_option (gen_auctionsV2_InitialPrice twa premium) = DutchV2.initial_price premium twa.
@@ -54,6 +54,29 @@ Proof.
   destruct (chk_dec _); reflexivity.
 Qed.
 Print Assumptions tie_auctionsV2_EndPrice.
+
+(* vault.GetAmountOfOtherToken (x/vault/keeper/vault.go:679), which the Dutch auction calls for every
+   conversion between the collateral and the debt token: the token amount and the nil error are those of
+   DutchV2.conv_c (the five checked operations of the code, tested by the model after the fact), for
+   all inputs; both assets found *)
+Theorem tie_vault_GetAmountOfOtherToken_conv : forall id1 rate1 amt1 id2 rate2 dec1 dec2,
+  snd3 (to_option (gen_vault_GetAmountOfOtherToken id1 rate1 amt1 id2 rate2 true true dec1 dec2))
+  = pair0 (DutchV2.conv_c dec1 rate1 amt1 dec2 rate2).
+Proof.
+  intros. unfold gen_vault_GetAmountOfOtherToken, conv_c, snd3, pair0. cbn [negb].
+  unfold_gosem. unfold dmul_c, dquo_c, dtrunc_int_c, chk_dec, chk_int. rewrite dec_of_int_eq0.
+  cbv [obind to_option option_map].
+  destruct (dec1 =? 0) eqn:E1; cbn [orb].
+  - destruct (fits_dec _); reflexivity.
+  - destruct (rate2 =? 0) eqn:E2.
+    + destruct (fits_dec (dmul (dec_of_int amt1) rate1)); [|reflexivity]. destruct (fits_dec _); reflexivity.
+    + cbv zeta. repeat (destruct (fits_dec _); cbn [andb]; [|reflexivity]). destruct (fits_int _); reflexivity.
+Qed.
+Print Assumptions tie_vault_GetAmountOfOtherToken_conv.
+
+Theorem tie_auctionsV2_conv_recognised : gen_vault_GetAmountOfOtherToken_unrecognised = [].
+Proof. reflexivity. Qed.
+Print Assumptions tie_auctionsV2_conv_recognised.
 
 Theorem tie_auctionsV2_recognised :
   gen_auctionsV2_Multiply_unrecognised = [] /\ gen_auctionsV2_InitialPrice_unrecognised = [] /\
